@@ -63,11 +63,12 @@ theorem C06_refuted : ¬ C06_full := by
   subst this
   revert hs; decide
 
-/-- `Switch.edit` returns the backward request of branch 0 whatever branch ran: the model flags
-    this (`bwdOk = false`) instead of describing it. -/
-theorem C06_switch_backward_unreliable (ds : DistSem) (ps : List Prog) (i : In) (r : Res) (a : Val) (oidx : Nat)
-    (osub : Trace) (ho : i.old = some (.switch a oidx osub)) (hch : i.changed = false) (hk : oidx ≠ 0)
-    (h : run ds .upd (.switch ps) i = .ok r) : r.bwdOk = false := by
+/-- `Switch.edit` (as repaired in /repo) returns the executed branch's backward request when the
+    index is tagged unchanged. -/
+theorem C06_switch_backward_is_the_branchs (ds : DistSem) (ps : List Prog) (i : In) (r : Res) (a : Val) (oidx : Nat)
+    (osub : Trace) (ho : i.old = some (.switch a oidx osub)) (hch : i.changed = false)
+    (h : run ds .upd (.switch ps) i = .ok r) :
+    ∃ ba r', runNth ds .upd ps oidx { i with old := some osub, args := ba } = .ok r' ∧ r.bwd = r'.bwd ∧ r.bwdOk = r'.bwdOk := by
   simp only [run, switchRun, bind_ok] at h
   obtain ⟨⟨idx, ba⟩, _, h2⟩ := h
   simp only [ho, hch] at h2
@@ -78,7 +79,7 @@ theorem C06_switch_backward_unreliable (ds : DistSem) (ps : List Prog) (i : In) 
     have hidx : oidx = idx := by simpa using hne
     subst hidx
     simp only [bind_ok, pure_ok] at h2
-    obtain ⟨r', _, rfl⟩ := h2
-    simp [hk]
+    obtain ⟨r', h4, rfl⟩ := h2
+    exact ⟨ba, r', by simpa [hch] using h4, rfl, rfl⟩
 
 end GenjaxVerif.GFI
